@@ -1659,6 +1659,16 @@ def check_C17(run):
             if kind == "run" and iv.code == 0 and iv.spawns and stp.after is not None and stp.after["rows"] is None:
                 V.append(Violation("C17", "command-did-not-use-the-nearest-project-root (run from %s)" % who,
                                    {"cwd": cwd if who == "sub" else ""}, i))
+            rt = str(ref.root if who == "root" else run.root)
+            if kind == "where" and iv.code == 0 and not stp.op.get("flags", {}).get("project"):
+                loc = iv.out.decode("utf-8", "replace").strip()
+                if loc and not (loc + "/").startswith(rt + "/"):
+                    V.append(Violation("C17", "command-did-not-use-the-nearest-project-root (where from %s)" % who,
+                                       {"cwd": cwd if who == "sub" else "", "printed": loc.replace(str(run.work), "$W")}, i))
+            orl = getattr(stp, "out_rel", None)
+            if kind == "archive" and orl and iv.code == 0 and not orl["exists"]:
+                V.append(Violation("C17", "relative-archive-path-not-resolved-against-the-working-directory (from %s)" % who,
+                                   {"cwd": cwd if who == "sub" else "", "found_instead": orl["strays"]}, i))
         if b.internal is not None and a.internal is None:
             V.append(Violation("C17", "internal-error-only-from-subdirectory %s at %s (%s)" % (b.internal[0], b.internal[1], tag),
                                {"cwd": cwd, "internal": list(b.internal)[:3]}, i))
@@ -1677,6 +1687,18 @@ def check_C17(run):
                                    {"cwd": cwd, "diff": diff}, i))
         oa = normalize_output(a.out.decode("utf-8", "replace"), str(ref.root), str(ref.work))
         ob = normalize_output(b.out.decode("utf-8", "replace"), os.path.join(str(run.root), cwd), str(run.work))
+        if kind == "archive" and sb.op.get("out_rel"):
+            # a relative -o is resolved against the working directory: the two locations differ by design, each
+            # must be the file in its own starting directory
+            pre = "\u2728 Done! Archive saved as "
+            for who, lines, stp in (("root", oa, sa), ("sub", ob, sb)):
+                orl = getattr(stp, "out_rel", None)
+                for ln in lines:
+                    if ln.startswith(pre) and orl and ln[len(pre):].replace("$W", str(ref.work if who == "root" else run.work)) != orl["expected"]:
+                        V.append(Violation("C17", "reported-archive-location-is-not-the-relative-path-in-the-working-directory (from %s)" % who,
+                                           {"printed": ln[len(pre):], "cwd": cwd if who == "sub" else ""}, i))
+            oa = [ln for ln in oa if not ln.startswith(pre)]
+            ob = [ln for ln in ob if not ln.startswith(pre)]
         if kind != "run" and sorted(oa) != sorted(ob):
             V.append(Violation("C17", "reported-locations-depend-on-working-directory (%s)" % tag,
                                {"cwd": cwd, "root": oa[-4:], "sub": ob[-4:]}, i))
